@@ -94,17 +94,23 @@ theorem ctorQualDecl_safe [AllowsV P] (n ty : Str) (v : Val) (ia : Option Bool) 
   unfold ctorQualDecl; safe
 macro_rules | `(tactic| safe_leaf) => `(tactic| exact ctorQualDecl_safe _ _ _ _ _ _ _ _ _ _)
 
+theorem isCimType_reference : isCimType "reference".toList = true := by decide
+
 /-- the constructor calls that are NOT inside a try block cannot fail for the arguments the parser
     passes: a reference property with a scalar reference (or no) value, not an array -/
 theorem ctorProperty_reference_ok (n : Str) (v : Val) (hv : v = .null ∨ ∃ a, v = .scalar a) (rc o : Option Str)
     (p : Option Bool) (q : List Qual) :
     ∃ r, ctorProperty n "reference".toList v false none rc o p none q = .ok r := by
+  unfold ctorProperty
+  rw [isCimType_reference]
   rcases hv with h | ⟨a, h⟩ <;> subst h <;>
-    simp [ctorProperty, checkArrayParms, isCimType, allCimTypes, bind, Except.bind, pure, Except.pure]
+    simp only [checkArrayParms, bind, Except.bind, pure, Except.pure, Bool.false_eq_true, and_false, if_false,
+      Bool.not_true] <;> exact ⟨_, rfl⟩
 
 theorem ctorParameter_reference_ok (n : Str) (rc : Option Str) (ia : Bool) (asz : Option Int) (q : List Qual) :
     ∃ r, ctorParameter n "reference".toList rc ia asz q = .ok r := by
-  simp [ctorParameter, isCimType, allCimTypes]
+  unfold ctorParameter
+  rw [isCimType_reference]
   exact ⟨_, rfl⟩
 
 end
